@@ -23,6 +23,10 @@
 #include <boost/uuid/uuid_generators.hpp>
 #include <boost/uuid/uuid_io.hpp>
 
+#ifndef _WIN32
+#include <unistd.h>
+#endif
+
 
 using namespace std;
 
@@ -45,6 +49,14 @@ string createId() {
     typedef boost::mt19937::result_type seed_type;
     static boost::mt19937 ran(static_cast<seed_type>(std::random_device()()));
     static boost::uuids::basic_random_generator<boost::mt19937> gen(&ran);
+#ifndef _WIN32
+    // a forked child inherits the state of the generator: seed it again or parent and children hand out the same ids
+    static pid_t owner = getpid();
+    if (owner != getpid()) {
+        ran.seed(static_cast<seed_type>(std::random_device()()));
+        owner = getpid();
+    }
+#endif
     boost::uuids::uuid u = gen();
     return boost::uuids::to_string(u);
 }
